@@ -220,6 +220,17 @@ theorem kkt_gap (n : ℕ) (A : List (List α)) (b s x : List α) (tol : α) (hto
     (fun i _ => hxn i)
   linarith
 
+/-- the executable check the driver evaluates on the model's result implies the KKT predicate -/
+theorem isKKTb_sound (A : List (List α)) (b s : List α) (tol : α)
+    (h : Spec.isKKTb A b s tol = true) : Spec.IsKKT A b s tol := by
+  unfold Spec.isKKTb at h
+  simp only [List.all_eq_true, List.mem_range, Bool.and_eq_true, decide_eq_true_eq] at h
+  intro i hi
+  obtain ⟨⟨h1, h2⟩, h3⟩ := h i hi
+  refine ⟨h1, fun hp => ?_, fun hz => ?_⟩
+  · simpa [hp] using h2
+  · simpa [hz] using h3
+
 end Ordered
 
 end Model
